@@ -193,8 +193,12 @@ ClientShapes == {"none", "ownAuthz", "pauthOnce", "pauthTwice", "pauthMixedCase"
 \* originUpper: the entry's host spelt in upper case by the client - the same target
 \* originDotlessI: "or\u0130gin.test" - U+0130 lower-cases to "i" under Unicode rules, but it is another host (the transport
 \* dials its IDNA form): no entry for origin.test applies
-CredReqs == [kind : {"GET", "CONNECT", "MITMGET"}, host : {"origin", "other", "originUpper", "originDotlessI"}, port : {"implicit", "8080"}, shape : ClientShapes]
-CredReqOK(r) == (r.kind = "CONNECT" => r.port = "8080") /\ (r.kind = "MITMGET" => r.port = "implicit") /\ (r.host \in {"originUpper", "originDotlessI"} => r.kind = "GET")
+\* prior: what the same proxy instance has been asked just before - a request for the same host under the other scheme (the
+\* URL names no port: http means 80, https 443). Which entry applies is a matter of this request alone.
+CredReqs == [kind : {"GET", "CONNECT", "MITMGET"}, host : {"origin", "other", "originUpper", "originDotlessI"}, port : {"implicit", "8080"}, shape : ClientShapes,
+             prior : {"none", "otherScheme"}]
+CredReqOK(r) == /\ (r.kind = "CONNECT" => r.port = "8080") /\ (r.kind = "MITMGET" => r.port = "implicit") /\ (r.host \in {"originUpper", "originDotlessI"} => r.kind = "GET")
+                /\ (r.prior # "none" => r.kind \in {"GET", "MITMGET"} /\ r.port = "implicit" /\ r.host = "origin" /\ r.shape = "none")
 HasOwnAuthz(sh) == sh \in {"ownAuthz", "pauthAndAuthz"}
 CredExpect(c, r) ==
   LET p80 == r.kind = "GET" /\ r.port = "implicit"        \* http default port; CONNECT uses 8080, MITM 443
@@ -221,7 +225,9 @@ RouteBase == {x \in RouteAll : x[1].ct = "none" /\ x[1].lh = "allow" /\ x[1].dd 
 InitRoute  == gen = "route"  /\ \E x \in Pick(RouteSample, RouteAll) \cup (IF RouteSample = 0 THEN {} ELSE RouteBase) \cup KrbAll :
                   cfg = x[1] /\ req = x[2] /\ out = Decide(x[1], x[2])
 InitVia    == gen = "via"    /\ cfg \in ViaCfgs /\ req \in ViaReqs /\ out = Decide(cfg, req)
-InitCred   == gen = "cred"   /\ \E x \in Pick(CredSample, CredAll) : cfg = x[1] /\ req = x[2] /\ out = CredExpect(x[1], x[2])
+\* (every case with a history is always run)
+CredBase == {x \in CredAll : x[2].prior # "none"}
+InitCred   == gen = "cred"   /\ \E x \in Pick(CredSample, CredAll) \cup (IF CredSample = 0 THEN {} ELSE CredBase) : cfg = x[1] /\ req = x[2] /\ out = CredExpect(x[1], x[2])
 Init == InitAccess \/ InitRoute \/ InitVia \/ InitCred
 Next == FALSE /\ UNCHANGED vars
 
